@@ -6,6 +6,7 @@ mod certspace;
 mod glue;
 mod keys;
 mod run;
+mod validators;
 mod props;
 
 fn main() {
